@@ -63,6 +63,9 @@ def gen_model(rng) -> dict:  # noqa: ANN001
         comps.append({"kind": "readout", "name": "ro", "fn": L(fl.div2), "args": ["x0", "x1"]})
     if rng.random() < 0.5:
         comps.append({"kind": "surrogate", "name": "sur", "fn": L(fl.s2_2), "args": ["x0", "k1"], "outputs": ["sflux", "svar"], "stoich": {"sflux": {"x1": 1.0, "x0": {"fn": L(fl.neg_sq1), "args": ["c1"]}}}})
+    if rng.random() < 0.5:
+        # a coefficient that depends on the state (positive everywhere): derivatives are N(state) x fluxes row by row
+        comps.append({"kind": "reaction", "name": "vd", "fn": L(fl.lin_ma), "args": ["k1", "x1"], "stoich": {"x1": -1, "x2": {"fn": L(fl.sat1), "args": ["x0"]}}})
     if rng.random() < 0.4:
         # coefficients that are exactly zero (numeric, and computed as k1 - k1 by a function): such a flux is neither producer nor consumer
         comps.append({"kind": "reaction", "name": "vz", "fn": L(fl.lin_ma), "args": ["k2", "x0"], "stoich": {"x0": -1, "x1": 0, "x2": {"fn": L(fl.zero1), "args": ["k1"]}}})
@@ -231,7 +234,7 @@ def run_case(case: dict) -> dict:
     rng.shuffle(order)
     got: dict[int, list] = {}
     viols: list[dict] = []
-    counters = {"views_read": 0, "segments": nseg, "parameter_sets_differing_by_1e-6_relative": tiny_updates, "models_with_exactly_zero_coefficients": int(any(c["name"] == "vz" for c in spec["components"]))}
+    counters = {"views_read": 0, "segments": nseg, "parameter_sets_differing_by_1e-6_relative": tiny_updates, "models_with_a_state_dependent_coefficient": int(any(c["name"] == "vd" for c in spec["components"])), "models_with_exactly_zero_coefficients": int(any(c["name"] == "vz" for c in spec["components"]))}
     for i in order:
         r = reads[i]
         try:
